@@ -512,6 +512,15 @@ func TestVerif_C18_EmptySelection(t *testing.T) {
 			}
 		}
 	}
+	// a symbol listed twice in one option still maps its tokens once
+	res.Evaluations++
+	calls := 0
+	countIdent := func(tk lexer.Token) (lexer.Token, error) { calls++; return tk, nil }
+	if p, err := participle.Build[r6Call](participle.Map(countIdent, "Ident", "Ident"), participle.Unquote("String", "String")); err != nil {
+		res.violate("symbols listed twice: Build: %v", err)
+	} else if v, err := p.ParseString("", `f(a, "\"q\"")`); err != nil || calls != 2 || fmt.Sprint(v.Args) != `[a "q"]` {
+		res.violate("symbols listed twice in Map / Unquote: the mapper ran %d times for 2 identifiers, parsed %v %v; want 2 calls and [a \"q\"]", calls, v, err)
+	}
 	// a mapper registered for the token type EOF is for that type only
 	res.Evaluations++
 	if p, err := participle.Build[r6Call](participle.Upper("EOF")); err != nil {
